@@ -92,6 +92,7 @@ pub fn main(a: &Args) -> i32 {
     let seed = a.num("seed", 1);
     let histories = a.num("segments", 4);
     let max_points = a.num("points", 120) as usize;
+    let unsafe_ckpt = a.flag("unsafe-checkpoints"); // witness mode for the checkpoint findings
     let dir = PathBuf::from(a.str("dir", "/verif/work/crash"));
     let out = PathBuf::from(a.str("out", "/verif/work/crash-trace.ndjson"));
     let exe = std::env::current_exe().unwrap();
@@ -121,7 +122,9 @@ pub fn main(a: &Args) -> i32 {
             if run.hung { break; }
             let ti = r.random_range(0..tabs.len());
             let c = r.random_range(0..100);
-            if c < checkpoint_share {
+            // a checkpoint while a transaction is open makes its uncommitted rows durable and drops its undo information
+            // (finding CheckpointLeaksOpenTransaction): checkpoints only between transactions here
+            if (c < checkpoint_share && open.is_empty()) || (unsafe_ckpt && c < 15) {
                 call(&mut run, &tap, &mut marks, "flush", no_tx, |run| run.flush());
             } else if c < 45 {
                 let s = rand_insert(&mut r, &mut tabs[ti], 0, 4, false);
@@ -220,7 +223,7 @@ pub fn main(a: &Args) -> i32 {
             for m in &marks {
                 if k >= m.io1 { pos = m.after_event; } else { if k > m.io0 { inflight = Some(m); pos = m.after_event; } break; }
             }
-            let mut ev = json!({"ev": "crashread", "k": k, "inflight": false, "tx": 0});
+            let mut ev = json!({"ev": "crashread", "k": k, "inflight": false, "tx": 0, "during": ""});
             if let Some(m) = inflight { if let Some(tx) = m.tx { ev["inflight"] = json!(true); ev["tx"] = json!(tx); } ev["during"] = json!(m.what); }
             if marks.iter().any(|m| m.io1 <= k && matches!(m.what, "auto" | "commit")) { nontrivial += 1; }
             ev["open"] = v["open"].clone();
